@@ -52,7 +52,7 @@ ASSUMPTIONS = [
 REQUIRED_PROBES = {
     "quick": ["op_failed_then_next_ok", "wrapped_caught", "fault_inside_op",
               "handle_reused_after_close", "callback_raised",
-              "process_spawned", "clock_jumped"],
+              "process_spawned", "clock_jumped", "symlink_touched"],
 }
 REQUIRED_PROBES["thorough"] = REQUIRED_PROBES["quick"]
 
@@ -66,6 +66,8 @@ PATHS = {
     "badscript": D + "/bad.ckl", "errscript": D + "/err.ckl",
     "new": D + "/new.txt", "newdir": D + "/made", "deep": D + "/x/y/z",
     "rel": "rel.txt", "dirslash": D + "/sub/", "root": D,
+    "loop": D + "/loop", "dangling": D + "/dangling",
+    "linkfile": D + "/linkfile", "linkdir": D + "/linkdir",
 }
 STATE = {"text": "file", "empty": "file", "bin": "file", "dir": "dir",
          "inner": "file", "missing": "missing", "noparent": "missing",
@@ -73,7 +75,9 @@ STATE = {"text": "file", "empty": "file", "bin": "file", "dir": "dir",
          "bigout": "file", "script": "file",
          "badscript": "file", "errscript": "file", "new": "missing",
          "newdir": "missing", "deep": "missing", "rel": "missing",
-         "dirslash": "dir", "root": "dir"}
+         "dirslash": "dir", "root": "dir", "loop": "dir-with-link-cycle",
+         "dangling": "dangling-link", "linkfile": "link-to-file",
+         "linkdir": "link-to-dir"}
 
 
 _W = ["fs.write", "fs.flush", "out.write", "out.flush", "console.write"]
@@ -207,6 +211,8 @@ def gen_case(rng, tier, k):
             name = "file_info"
         elif r < 0.88:
             pk, p = path()
+            if rng.random() < 0.3:
+                pk, p = path(["loop", "linkdir", "root", "dangling", "dir"])
             extra = rng.choice(["", ", TRUE", ", TRUE, TRUE, TRUE",
                                 ", FALSE, TRUE", ", include_dirs = TRUE"])
             src = f"list_dir({q(p)}{extra})"
@@ -366,6 +372,14 @@ def build_world(sim):
     w.put_file(PATHS["bin"], b"\xff\xfe\x00abc\x80\n")
     w.put_dir(PATHS["dir"])
     w.put_file(PATHS["inner"], "inner\n")
+    # symbolic links: a directory with two links to itself (a cycle), a
+    # dangling link, links to a file and to a directory
+    w.put_file(PATHS["loop"] + "/a.txt", "in loop\n")
+    w.put_symlink(PATHS["loop"] + "/self", ".")
+    w.put_symlink(PATHS["loop"] + "/self2", ".")
+    w.put_symlink(PATHS["dangling"], "no-such-target")
+    w.put_symlink(PATHS["linkfile"], "a.txt")
+    w.put_symlink(PATHS["linkdir"], "sub")
     w.put_file(PATHS["prog"], "#!tool\n")
     w.put_file(PATHS["failprog"], "#!fail\n")
     w.put_file(PATHS["script"], "def from_script = 5; from_script + 1")
@@ -461,6 +475,9 @@ def run_case(case, root):
                 probes["fault_inside_op"] = 1
             if "proc" in touched:
                 probes["process_spawned"] = 1
+            if any(k2 in op["pk"] for k2 in ("loop", "dangling", "linkfile",
+                                             "linkdir")) and touched:
+                probes["symlink_touched"] = 1
             if op["name"] in ("process_lines", "for_input") and \
                     out["kind"] == "rt" and out["val"] in ("'cb'", "'body'"):
                 probes["callback_raised"] = 1
